@@ -11,11 +11,16 @@ from .common import d_str, d_bool, d_opt, d_list
 LEVEL = 'proof'
 RULE = ('file names over printable ASCII without backslash and slash: every single special character in first/middle/last '
         'position, all pairs of special characters (thorough) or a seeded sample of pairs (quick), plus random names; a name is '
-        'non-trivial when it contains a character outside [A-Za-z0-9_.]; distinct by exact text')
+        'non-trivial when it contains a character outside [A-Za-z0-9_.]; distinct by exact text. System depfile-entry stage: real gcc / '
+        'clang projects whose object paths (source directory at depth 1 and 2, file stem, every second time the program name) carry '
+        'blank, $, # (always) and sampled other characters, with a header known only through the compiler-written depfile: build, '
+        'no-op build, change the header, build (both objects compiled, new value printed), no-op build')
 TRUSTED = ('R model Make/MakeNames.v (rule-header word reading) validated against /usr/bin/make on this run',
            'R model Make/MakeHeader.v (splitting of a whole rule header, patsubst %/.dir,%) validated against /usr/bin/make on this run',
            'the representable set is established at run time with a hand-written reference escaping (reference_escape) run by the real make',
-           'Ninja reader model is trusted (no ninja binary)')
+           'Ninja reader model is trusted (no ninja binary)',
+           'depfile-entry stage: real gcc 12 / clang 14 write the depfiles, real GNU Make reads them; which sources were compiled is read '
+           'from the log of a compiler wrapper (harness/c07.py SysRun)')
 
 SPECIALS = [c for c in string.printable if c.isprintable() and not c.isalnum() and c not in '\\/_.'] + ['\t']
 # known implementation defects (findings.d/C04.json). A class is a predicate on the name AND on the failure: it applies only
@@ -461,6 +466,81 @@ def stage_system_names(rep, rng, thorough):
     return bad
 
 
+class _Tree:
+    """the minimal project interface of c07.SysRun.sync"""
+
+    def __init__(self, files):
+        self.files = files
+
+    def render(self):
+        return dict(self.files)
+
+
+def stage_system_depfile_entry(rep, rng, thorough):
+    """The object path as the compiler writes it into the depfile and as Make reads it back (`-include <object>.d`): with the
+    real gcc / clang, sources whose directory (depth 1 and 2) and file name carry the special character - the object of
+    d?r/ma?in.c is prog.int/d?r/ma?in.o - and, in every second project, a program name carrying it as well; each source
+    includes a header that build.bfg never names.  History: build (the program prints the header's value), build again
+    (nothing compiled), change the header, build (BOTH objects compiled, new value printed), build again (nothing compiled).
+    The header prerequisites must have reached exactly the object files the Makefile describes."""
+    from . import c07
+    bad = 0
+    always = [' ', '$', '#']
+    others = ['&', '@', '!', '+', '~', '{', '}', '=', '^', ';']
+    picks = always + (others if thorough else rng.sample(others, 1))
+    ccs = [c for c in ('gcc', 'clang') if shutil.which(c)]
+    for k, c in enumerate(picks):
+        stem = 'ma' + c + 'in'
+        d1, d2 = 'd' + c + 'r', 'e' + c + 'f'
+        srcs = [d1 + '/' + stem + '.c', d1 + '/' + d2 + '/' + stem + '.c']
+        prog = ('pr' + c + 'og') if (k + rep.seed) % 2 == 1 and c not in '~' else 'prog'
+        cc = ccs[(k + rep.seed) % len(ccs)]
+        root = common.scratch('c04dep')
+        info = {'kind': 'depfile-entry', 'char': c, 'sources': srcs, 'program': prog, 'cc': cc}
+        try:
+            run_ = c07.SysRun(root, cc)
+
+            def files(v):
+                return {'build.bfg': "project('p')\nexecutable(%r, files=%r)\n" % (prog, srcs),
+                        'inc/val.h': '#define VAL %d\n' % v,
+                        srcs[0]: '#include "../inc/val.h"\n#include <stdio.h>\nint f(void);\n'
+                                 'int main(void){ printf("%d %d\\n", VAL, f()); return 0; }\n',
+                        srcs[1]: '#include "../../inc/val.h"\nint f(void){ return VAL; }\n'}
+            run_.sync(_Tree(files(1)))
+            p = run_.configure()
+            rep.case('depfile-entry:%s:%s:%s' % (c, prog, cc), True)
+            rep.count('system:depfile entry char %r' % c)
+            if p.returncode != 0:
+                rep.count('system:depfile entry configure_rejects')
+                continue
+
+            def out():
+                q = subprocess.run([os.path.join(run_.bld, prog)], capture_output=True, text=True, timeout=60)
+                return q.stdout.strip() if q.returncode == 0 else 'exit %d' % q.returncode
+            why, detail = None, ''
+            for step, v, want_compiled in (('first build', 1, set(srcs)), ('second build', 1, set()),
+                                           ('build after changing the header', 2, set(srcs)), ('build after that', 2, set())):
+                run_.sync(_Tree(files(v)))
+                q, compiled, other = run_.make()
+                detail = (q.stdout + q.stderr)[-500:]
+                if q.returncode != 0:
+                    why = '%s: make fails' % step
+                elif compiled != want_compiled:
+                    why = '%s: make compiled %r, expected %r' % (step, sorted(compiled), sorted(want_compiled))
+                elif out() != '%d %d' % (v, v):
+                    why = '%s: the program prints %r, the header says %d' % (step, out(), v)
+                if why:
+                    break
+            if why and reference_ok(d1)[0] and reference_ok(stem + '.o')[0]:
+                if rep.fail('Make + %s: sources %r, program %r: %s: %s' % (cc, srcs, prog, why, detail[-250:]),
+                            dict(info, why=why, make_output=detail), classes=classify(stem, 'make')):
+                    bad += 1
+        finally:
+            shutil.rmtree(root, ignore_errors=True)
+    rep.stage('system depfile entry', chars=len(picks), failures=bad)
+    return bad
+
+
 def stage_system_location(rep, rng, thorough):
     """The LOCATION of the source and build directories carries the special character (the value of srcdir, which the
     Make backend writes once as `srcdir := ...` and then uses as $(srcdir) in rule headers and inside quotes in recipes):
@@ -866,6 +946,7 @@ def run(rep):
     found += stage_ninja(rep, rng, names)
     found += stage_system_names(rep, rng, thorough)
     found += stage_system_location(rep, rng, thorough)
+    found += stage_system_depfile_entry(rep, random.Random(rep.seed * 31 + 5), thorough)
     if dis and not rep.n_with_input:
         i, call, iv, mv = dis[0]
         rep.fail('W:%s - model and implementation disagree (%d cases), e.g. %r: impl %r, model %r' % (
